@@ -1210,8 +1210,15 @@ class Symbolic(
         value = value.clone()
 
     if isinstance(value, TopologyAware):
+      old_path = value.sym_path
       value.sym_setpath(utils.KeyPath(key, self.sym_path))
-      value.sym_setparent(self._sym_parent_for_children())
+      try:
+        value.sym_setparent(self._sym_parent_for_children())
+      except BaseException:
+        # The value refuses the new parent (e.g. a self-referential `pg.Ref`):
+        # it is not going to be stored, so it must not report this position.
+        value.sym_setpath(old_path)
+        raise
     return value
 
   def _sym_parent_for_children(self) -> Optional['Symbolic']:
